@@ -81,6 +81,17 @@ func effectCall(name string) bool {
 	return false
 }
 
+// commitCall reports whether a call is one whose effect is applied in one piece by the component behind it, so that
+// "applied, but reported as failed" is a possible outcome of it.
+func commitCall(name string) bool {
+	for _, p := range []string{"storage.Write:", "manager.CreateNewSigningKeyVersion", "manager.DestroyKeyVersion:", "signer.Sign:", "ca.Finalize"} {
+		if strings.HasPrefix(name, p) {
+			return true
+		}
+	}
+	return false
+}
+
 func mkErr(class int, call string) (error, string) {
 	cl := classes[class%len(classes)]
 	if cl.effectOnly && !effectCall(call) {
@@ -118,8 +129,12 @@ func (c *swCtx) trip(err error) {
 
 // ---- controller ----
 
+// faultErrorAfter: the call TAKES EFFECT and then reports an error of the chosen class (a lost acknowledgement, a
+// deadline that passes after the component applied the request). The process lives on and sees a failed call.
+const faultErrorAfter = "error-after-effect"
+
 type fault struct {
-	kind  string // doubles.FaultError | FaultCrashBefore | FaultCrashAfter
+	kind  string // doubles.FaultError | FaultCrashBefore | FaultCrashAfter | faultErrorAfter
 	class int
 }
 
@@ -142,9 +157,24 @@ type ctl struct {
 	// in-process nonprod key managers do not); nil = every component does
 	ctxHonour []string
 
+	// streamNew: an object that does not exist yet is written THROUGH to the back end as the calls arrive (opened at
+	// the writer's open, data handed on at the data write, committed at Close) instead of as a whole at Close, so that a
+	// crash between the open and the commit leaves what the back end leaves of an unfinished NEW object. Objects that
+	// exist are still replaced as a whole (no torn objects: the design's object-granularity assumption).
+	streamNew bool
+	// byName places a fault at the nth call whose name starts with a prefix (no trace of the run is needed beforehand)
+	byName []nameFault
+
 	injected   int            // calls answered with an injected error, a context error, or a crash
 	classSeen  map[string]int // error class -> injected count
 	firstFault string         // name of the first faulted call
+}
+
+type nameFault struct {
+	prefix string
+	nth    int
+	ft     fault
+	count  int
 }
 
 func newCtl() *ctl {
@@ -155,7 +185,18 @@ func (f *ctl) enter(ctx context.Context, name string) (int, error) {
 	f.mu.Lock()
 	f.n++
 	seq := f.n
+	for k := range f.byName {
+		if nf := &f.byName[k]; strings.HasPrefix(name, nf.prefix) {
+			if nf.count++; nf.count == nf.nth {
+				f.faults[seq] = nf.ft
+			}
+		}
+	}
 	ft := f.faults[seq]
+	if ft.kind == faultErrorAfter && !commitCall(name) {
+		// nothing to apply at a query or at the open / data write of a writer: the failure is a plain error
+		ft.kind = doubles.FaultError
+	}
 	if f.ctxAt == seq && f.ctxErr != nil {
 		f.ctx.trip(f.ctxErr)
 	}
@@ -168,7 +209,7 @@ func (f *ctl) enter(ctx context.Context, name string) (int, error) {
 		res = "injected-error"
 	case ft.kind == doubles.FaultCrashBefore:
 		res = "crash-before"
-	case ft.kind == doubles.FaultCrashAfter:
+	case ft.kind == doubles.FaultCrashAfter, ft.kind == faultErrorAfter:
 	case f.outFrom > 0 && seq >= f.outFrom && (f.outLen == 0 || f.outCount < f.outLen) && strings.HasPrefix(name, f.outScope):
 		f.outCount++
 		err, cname = mkErr(f.outClass, name)
@@ -207,7 +248,9 @@ func (f *ctl) honours(name string) bool {
 	return false
 }
 
-func (f *ctl) exit(seq int, err error) {
+// exit is called after the call's effect with the call's own error; it returns the error the caller gets (the call's
+// own, or the injected one of an error-after-effect fault) and realises crash-after.
+func (f *ctl) exit(seq int, err error) error {
 	f.mu.Lock()
 	ft := f.faults[seq]
 	if err != nil && seq-1 < len(f.log) {
@@ -220,10 +263,21 @@ func (f *ctl) exit(seq int, err error) {
 			f.firstFault = f.log[seq-1].Name
 		}
 	}
+	if ft.kind == faultErrorAfter && err == nil && seq-1 < len(f.log) && commitCall(f.log[seq-1].Name) {
+		var cname string
+		err, cname = mkErr(ft.class, f.log[seq-1].Name)
+		f.log[seq-1].Result = "error-after-effect"
+		f.injected++
+		f.classSeen[cname]++
+		if f.firstFault == "" {
+			f.firstFault = f.log[seq-1].Name
+		}
+	}
 	f.mu.Unlock()
 	if ft.kind == doubles.FaultCrashAfter {
 		panic(core.CrashSentinel{At: seq})
 	}
+	return err
 }
 
 func (f *ctl) names() []string {
@@ -255,6 +309,7 @@ type rW struct {
 	b, o   string
 	buf    []byte
 	failed error
+	iw     io.WriteCloser // written through (ctl.streamNew and the object did not exist at the open)
 }
 
 func (s *rStore) Reader(ctx context.Context, b, o string) (io.ReadCloser, error) {
@@ -288,8 +343,19 @@ func (s *rStore) Writer(ctx context.Context, b, o string) (io.WriteCloser, error
 	if err != nil {
 		return nil, err
 	}
+	w := &rW{s: s, ctx: ctx, b: b, o: o}
+	if s.f.streamNew {
+		if ok, e := s.inner.Exists(ctx, b, o); e == nil && !ok {
+			iw, e := s.inner.Writer(ctx, b, o)
+			if e != nil {
+				s.f.exit(seq, e)
+				return nil, e
+			}
+			w.iw = iw
+		}
+	}
 	s.f.exit(seq, nil)
-	return &rW{s: s, ctx: ctx, b: b, o: o}, nil
+	return w, nil
 }
 
 func (w *rW) Write(p []byte) (int, error) {
@@ -297,6 +363,11 @@ func (w *rW) Write(p []byte) (int, error) {
 	if err != nil {
 		w.failed = err
 		return 0, err
+	}
+	if w.iw != nil {
+		n, err := w.iw.Write(p)
+		w.s.f.exit(seq, err)
+		return n, err
 	}
 	w.buf = append(w.buf, p...)
 	w.s.f.exit(seq, nil)
@@ -306,11 +377,17 @@ func (w *rW) Write(p []byte) (int, error) {
 func (w *rW) Close() error {
 	if w.failed != nil {
 		// an object writer whose data write failed commits nothing and says so again at Close (object stores do)
+		if w.iw != nil {
+			w.iw.Close()
+		}
 		return fmt.Errorf("close after failed write: %w", w.failed)
 	}
 	seq, err := w.s.f.enter(w.ctx, "storage.Write:"+w.o)
 	if err != nil {
 		return err
+	}
+	if w.iw != nil {
+		return w.s.f.exit(seq, w.iw.Close())
 	}
 	iw, err := w.s.inner.Writer(w.ctx, w.b, w.o)
 	if err == nil {
@@ -320,8 +397,7 @@ func (w *rW) Close() error {
 			err = iw.Close()
 		}
 	}
-	w.s.f.exit(seq, err)
-	return err
+	return w.s.f.exit(seq, err)
 }
 
 func (s *rStore) IsNotExists(err error) bool { return s.inner.IsNotExists(err) }
@@ -357,8 +433,10 @@ func (s *rSigner) Sign(ctx context.Context, k string, d styp.Digest, o crypto.Si
 		return nil, err
 	}
 	b, err := s.inner.Sign(ctx, k, d, o)
-	s.f.exit(seq, err)
-	return b, err
+	if err = s.f.exit(seq, err); err != nil {
+		return nil, err
+	}
+	return b, nil
 }
 func (s *rSigner) PublicKey(ctx context.Context, k string) ([]byte, error) {
 	seq, err := s.f.enter(ctx, "signer.PublicKey:"+k)
@@ -390,8 +468,10 @@ func (m *rManager) CreateNewSigningKeyVersion(ctx context.Context) (string, erro
 		return "", err
 	}
 	s, err := m.inner.CreateNewSigningKeyVersion(ctx)
-	m.f.exit(seq, err)
-	return s, err
+	if err = m.f.exit(seq, err); err != nil {
+		return "", err
+	}
+	return s, nil
 }
 func (m *rManager) CreateNewRootKey(ctx context.Context) (string, error) {
 	seq, err := m.f.enter(ctx, "manager.CreateNewRootKey")
@@ -417,8 +497,7 @@ func (m *rManager) DestroyKeyVersion(ctx context.Context, k string) error {
 		return err
 	}
 	err = m.inner.DestroyKeyVersion(ctx, k)
-	m.f.exit(seq, err)
-	return err
+	return m.f.exit(seq, err)
 }
 func (m *rManager) Wipeout(ctx context.Context) error {
 	seq, err := m.f.enter(ctx, "manager.Wipeout")
@@ -478,8 +557,7 @@ func (c *rCA) Finalize(ctx context.Context, m styp.CertificateAuthorityMutation)
 		return err
 	}
 	err = c.inner.Finalize(ctx, m)
-	c.f.exit(seq, err)
-	return err
+	return c.f.exit(seq, err)
 }
 func (c *rCA) PrepareResources(ctx context.Context) error {
 	seq, err := c.f.enter(ctx, "ca.PrepareResources")
